@@ -8,6 +8,7 @@ pub mod c10;
 pub mod c11;
 pub mod c12;
 pub mod c18;
+pub mod c19;
 
 pub fn dispatch(engine: &str, sh: &mut Shard) -> bool {
     match engine {
@@ -19,6 +20,7 @@ pub fn dispatch(engine: &str, sh: &mut Shard) -> bool {
         "c11" => c11::run(sh),
         "c12" => c12::run(sh),
         "c18" => c18::run(sh),
+        "c19" => c19::run(sh),
         _ => return false,
     }
     true
